@@ -34,4 +34,21 @@ PROPS = {
                         "non-zero trailing bits may be rejected or accepted-with-the-right-octets (RFC 4648 3.5)",
                         "a caller of Decoder::push stops at the first error"],
     },
+    "C03": {
+        "level": "exploration",
+        "features": ["hooks"],
+        "stages": [
+            {"mode": "native"},
+            {"mode": "asan", "scale": 0.1},
+            {"mode": "miri", "scale": 0.002, "shards": 16, "tiers": ["thorough"]},
+        ],
+        "rule": "an evaluation is one builder state x operation (boundary enumeration: closed length 186..254 x open label 0..63 x op x argument length; "
+                "quick takes every state within 12 octets of the limit and a stride elsewhere, thorough the whole space on Vec and BytesMut), one random "
+                "builder sequence, one wire input through every from_octets/from_slice/parse constructor, one presentation text through every FromStr/"
+                "from_chars, or one name through the conversion/chain/slice/strip/parent operations at its valid label boundaries; every produced value is "
+                "checked by the independent validator; distinct = (op, state class, model verdict, library verdict) resp. (constructor verdict vector, length class)",
+        "assumptions": ["limits: label 1..63, absolute name <= 255 with exactly one trailing root label, relative name <= 254 without root label (RFC 1035 2.3.4, 3.1)",
+                        "slicing calls are only made at valid label boundaries (documented panics otherwise)",
+                        "which error variant is returned is not checked, only Ok vs Err; rejecting an in-limit step is noted, not flagged"],
+    },
 }
